@@ -456,6 +456,11 @@ OBLIGATIONS += [
        "5 calls over 2 function types + 1 syscall_once; input any u8 < 50",
        "state persists per function type, is independent between types, commands applied on return, validation on first use only, "
        "syscall_once uses a fresh system"),
+    k2("syscall.spawned_self_despawn_direct", _k2h("ecs::spawned_syscall", "spawned_syscall_self_despawn_direct"), ["C17", "C18"],
+       ["spawned_syscall", "spawn_system", "CallbackSystem::run"], ["src/ecs/spawned_syscall.rs", "src/ecs/callbacks.rs"],
+       "an exclusive spawned system that removes its own entity from the world during the call; input < 100",
+       "the caller still gets Ok(output), the system ran exactly once, a later call is an error and runs nothing",
+       witness=[["spawned", "self_despawn"]]),
     k2("syscall.named_nested", _k2h("ecs::named_syscall", "named_syscall_nested_other_key"), ["C17", "C13"],
        ["named_syscall", "IdMappedSystems::take / insert", "run_initialized_system"], ["src/ecs/named_syscall.rs", "src/ecs/callbacks.rs"],
        "two names whose systems share input/output types; the first name's (exclusive) system calls the second name while it runs; input < 50",
